@@ -1594,6 +1594,95 @@ def _logging_event(ev):
     return False
 
 
+def _def_index(repo):
+    """name -> every function / method of the package with that name (who-may-be-called by name; receiver types are not known statically)"""
+    idx = getattr(repo, "_c12_def_index", None)
+    if idx is None:
+        idx = {}
+        for m in repo.all_modules():
+            for n in ast.walk(m.tree):
+                if isinstance(n, source.FUNC_TYPES):
+                    idx.setdefault(n.name, []).append(n)
+        repo._c12_def_index = idx
+    return idx
+
+
+def _absent_excluded(test, pol, pname):
+    """does being in the `pol` arm of `test` exclude that `pname` is None? Decided on the value: a conjunct (true arm) / disjunct (false arm) over `pname` alone that comes out the
+    other way for None (`if store:`, `if store is not None:`, `if store is None: return` ... however it is spelt)"""
+    from sa import minieval
+    parts = [test]
+    if isinstance(test, ast.BoolOp) and isinstance(test.op, ast.And if pol else ast.Or):
+        parts = list(test.values)
+    for p in parts:
+        names = {x.id for x in ast.walk(p) if isinstance(x, ast.Name)}
+        if pname not in names or not names <= {pname, "bool"}:
+            continue
+        try:
+            if bool(minieval.ev(p, {pname: None})) is (not pol):
+                return True
+        except Exception:  # noqa: BLE001 - CannotEval or an operation None does not support: not a presence test
+            continue
+    return False
+
+
+def _absent_uses(repo, fn, pname, depth=0, seen=None):
+    """The places at which a value of None for the parameter `pname` of `fn` is USED as if it were an object: an attribute / item of it is taken, or it is handed to a routine
+    of the package (every definition the call may reach by name) that does so, where no guard has excluded None. Returns [(node, chain of routine names)]."""
+    from sa.classes import is_logging_call
+    seen = seen if seen is not None else set()
+    if (id(fn), pname) in seen or depth > 3:
+        return []
+    seen.add((id(fn), pname))
+    names = {pname}
+    for n in walk_body(fn):  # plain aliases
+        if isinstance(n, ast.Assign) and isinstance(n.value, ast.Name) and n.value.id in names:
+            names |= {t.id for t in n.targets if isinstance(t, ast.Name)}
+    out = []
+    for n in walk_body(fn):
+        if not (isinstance(n, ast.Name) and n.id in names and isinstance(n.ctx, ast.Load)):
+            continue
+        p = source.parent(n)
+        if isinstance(p, ast.keyword):
+            p = source.parent(p)
+        deref = isinstance(p, (ast.Attribute, ast.Subscript)) and p.value is n
+        passed = isinstance(p, ast.Call) and (any(a is n for a in p.args) or any(k.value is n for k in p.keywords))
+        if not deref and not passed:
+            continue
+        if any(_absent_excluded(t, pol, nm) for t, pol in guards(n, path_sensitive=True) for nm in names):
+            continue
+        # `store and store.put(...)` / `store is None or store.put(...)`
+        child, q, short_circuit = n, source.parent(n), False
+        while q is not None and not isinstance(q, ast.stmt):
+            if isinstance(q, ast.BoolOp):
+                i = next((j for j, v in enumerate(q.values) if v is child), 0)
+                if any(_absent_excluded(v, isinstance(q.op, ast.And), nm) for v in q.values[:i] for nm in names):
+                    short_circuit = True
+            child, q = q, source.parent(q)
+        if short_circuit:
+            continue
+        if deref:
+            out.append((n, [fn.name]))
+            continue
+        if is_logging_call(p) or last_attr(p.func) in ("isinstance", "bool", "print", "str", "repr", "id", "type"):
+            continue
+        cands = _def_index(repo).get(last_attr(p.func) or "", [])
+        if isinstance(p.func, ast.Attribute):
+            # the receiver is typed by the naming convention only: `node.telemetry.m(...)` reaches the method m of a class Telemetry when there is one; else every definition of m
+            rname = (last_attr(p.func.value) or "").replace("_", "").lower()
+            typed = [c_ for c_ in cands if isinstance(source.parent(c_), ast.ClassDef) and source.parent(c_).name.lower() == rname]
+            cands = typed or cands
+        for cand in cands:
+            if cand is fn:
+                continue
+            bound = source.bind_args(p, cand, skip_self=isinstance(p.func, ast.Attribute))
+            for prm, a in bound.items():
+                if a is n:
+                    sub = _absent_uses(repo, cand, prm, depth + 1, seen)
+                    out += [(n, [fn.name] + ch) for _, ch in sub[:1]]
+    return out
+
+
 def run(chk):
     repo = chk.repo
     model = ActorModel(repo)
@@ -1611,7 +1700,10 @@ def run(chk):
         "are evaluated by interpreting their statements on stand-in values (calls into helper methods of the class are followed, every other call is recorded; failures are "
         "injected call by call); CFG rules run on copies of the methods with the helper methods of the class expanded in place. How the nodes of the target host list are dealt "
         "out to the hosts is decided by value: the grouping expression the Dispatcher iterates and the Dispatcher's StartEngine handler are interpreted (the module's pure helper "
-        "functions followed) on representative host lists and compared with what the list demands (one start message per ip:port pair with as many distinct node ids as entries)."
+        "functions followed) on representative host lists and compared with what the list demands (one start message per ip:port pair with as many distinct node ids as entries). "
+        "Mechanic.start_engine is interpreted on a stand-in mechanic with two provisioners, with the launch and the second provisioning failing in turn: what has been provisioned "
+        "must be held by the attribute stop_engine cleans up (O12.8); a launcher's stop() that some caller hands None for the metrics store must not use the parameter as an object "
+        "outside a presence test, followed by name into the package routines it is handed to (O12.9)."
     )
     chk.not_decided = "interleavings of remote daemons joining, real process termination, Thespian delivery."
 
@@ -3046,6 +3138,133 @@ def run(chk):
                "this handler can complete normally: start() returns a partial node list, the mechanic takes it for 'all nodes started' and NodesStarted is sent",
                key=f"{key7}:failure-propagates")
 
+    # ---- O12.8 what a failed start leaves behind is known to the stop that follows (C12-m16) -------------------------------------------------------------------
+    chk.rule("O12.8", "Mechanic.start_engine evaluated on a stand-in mechanic with two provisioners: whenever the start leaves by an exception (the launcher's start fails after its "
+             "roll-back; the provisioning of a later node fails) every node configuration whose provisioning has completed is held by the attribute that stop_engine's clean-up "
+             "loop iterates over, and after a successful start that attribute holds all of them (the stop / exit request that follows a reported failure wipes what was installed)", 3,
+             "a node fails to launch: the failure is reported, the nodes are rolled back, but the stop that follows cleans up an empty list - installations and data directories of "
+             "the whole host stay on disk although preserve-install is off")
+    loop8 = source.enclosing(clean_c[0], (ast.For, ast.ListComp, ast.GeneratorExp, ast.SetComp))
+    over8 = None if loop8 is None else source.inline_node(loop8.iter if isinstance(loop8, ast.For) else loop8.generators[0].iter, st_defs)
+    wiped = sorted({x.attr for x in ast.walk(over8) if is_self_attr(x)}) if over8 is not None else []
+    se_defs8 = source.local_defs(se_mx)
+    iters8 = [n.iter for n in walk_body(se_mx) if isinstance(n, ast.For)] + \
+             [g_.iter for n in walk_body(se_mx) if isinstance(n, (ast.ListComp, ast.GeneratorExp, ast.SetComp, ast.DictComp)) for g_ in n.generators]
+    written8 = {x.attr for x in ast.walk(se_mx) if is_self_attr(x) and isinstance(x.ctx, ast.Store)}
+    prov_attrs = sorted({x.attr for it in iters8 for x in ast.walk(source.inline_node(it, se_defs8)) if is_self_attr(x)} - set(wiped) - written8 - {launcher_attr})
+    if len(wiped) != 1 or len(prov_attrs) != 1:
+        chk.unknown("O12.8", f"roles not recognised: stop_engine's clean-up loop iterates over the attribute(s) {wiped}, start_engine iterates over the attribute(s) {prov_attrs} "
+                    "(expected one attribute with the node configurations and one with the provisioners)", se_m)
+    else:
+        def start8(failing):
+            P = [_Obj(cls="Provisioner", name=f"the provisioner of node {i}") for i in (0, 1)]
+            L = _Obj(cls="Launcher", name="the launcher")
+            me = _Obj(name="self", **{k: _snap(v) for k, v in _init_fields(MI).items()})
+            me.fields[prov_attrs[0]] = list(P)
+            me.fields[launcher_attr] = L
+            fail = {"launch": lambda ev: ev.recv is L, "provisioning": lambda ev: ev.recv is P[1]}.get(failing)
+            sim = _Sim(model.table, MI, me, fail=fail)
+            esc = None
+            try:
+                sim.call_method(se_m, [])
+            except _Raised as x:
+                esc = x.name
+            return sim.trace, me, esc, P, L
+
+        def holds8(me, r):
+            flat = []
+
+            def fl(x, d=0):
+                flat.append(x)
+                if d < 3 and isinstance(x, (list, tuple, set, frozenset)):
+                    for y in x:
+                        fl(y, d + 1)
+                elif d < 3 and isinstance(x, dict):
+                    for y in list(x.keys()) + list(x.values()):
+                        fl(y, d + 1)
+
+            v = me.fields.get(wiped[0])
+            if not isinstance(v, (list, tuple, set, frozenset, dict)):
+                return None
+            fl(v)
+            return any(y is r for y in flat)
+
+        try:
+            t_ok8, me_ok8, esc_ok8, P8, L8 = start8(None)
+            launch_ev = [e for e in t_ok8 if e.recv is L8]
+            flat_args = [y for e in launch_ev for a in list(e.args) + list(e.kwargs.values()) for y in (a if isinstance(a, (list, tuple)) else [a])]
+            roles8 = {e.name for e in t_ok8 if any(e.recv is p for p in P8) and isinstance(e.result, _Opaque) and any(y is e.result for y in flat_args)}
+            runs8 = [("a successful start", t_ok8, me_ok8, esc_ok8, P8)]
+            if launch_ev and roles8:
+                for failing in ("launch", "provisioning"):
+                    t8, me8, esc8, Pf, _ = start8(failing)
+                    runs8.append((f"the {failing} of " + ("a node fails in the launcher" if failing == "launch" else "the second node fails"), t8, me8, esc8, Pf))
+            err8 = None
+        except _Cannot as e:
+            err8 = str(e)
+        if err8 is not None:
+            chk.unknown("O12.8", f"Mechanic.start_engine cannot be evaluated on a stand-in mechanic: {err8}", se_m)
+        elif not launch_ev or not roles8 or esc_ok8 is not None:
+            chk.unknown("O12.8", "on a stand-in mechanic with two provisioners start_engine does not hand results of calls on the provisioners to a call on the launcher "
+                        f"(launcher calls seen: {len(launch_ev)}, escaping: {esc_ok8}): the provisioning step was not recognised", se_m)
+        else:
+            for what, t8, me8, esc8, Pf in runs8:
+                done = [e for e in t8 if any(e.recv is p for p in Pf) and e.name in roles8 and isinstance(e.result, _Opaque)]
+                held = [holds8(me8, e.result) for e in done]
+                inst = f"start_engine, {what}: the configurations provisioned so far are the ones stop_engine cleans up"
+                if what != "a successful start" and esc8 is None:
+                    chk.unknown("O12.8", f"{inst}: the injected failure does not leave start_engine (it is handled inside; what is recorded then is not decided here)", se_m)
+                elif not done or None in held:
+                    chk.unknown("O12.8", f"{inst}: {len(done)} completed provisioning call(s) seen, self.{wiped[0]} is {me8.fields.get(wiped[0])!r:.60} (not a container of them)", se_m)
+                else:
+                    ok = all(held)
+                    chk.ob("O12.8", inst, ok, (done[held.index(False)].node if not ok else se_m),
+                           f"{len(done)} completed {'/'.join(sorted(roles8))}() call(s), self.{wiped[0]} holds {sum(held)} of their results when start_engine "
+                           f"{'returns' if esc8 is None else 'raises'}" + ("" if ok else f": the stop that follows iterates over self.{wiped[0]} and never cleans up the rest"),
+                           key=f"{_M}:Mechanic.start_engine:provisioned-state-recorded:{what.split(' ')[1]}")
+
+    # ---- O12.9 stop() without a metrics store (the roll-back of a failed start) runs to the end (C12-m18) ---------------------------------------------------------
+    chk.rule("O12.9", "a launcher's stop() that is called without a metrics store (None: by the roll-back in its own start(), by mechanic.stop() when the race is not found) "
+             "uses the store parameter - takes an attribute of it, or hands it to a routine of the package that does - only where a guard has excluded None, so that the loop "
+             "over the nodes reaches every node", 2,
+             "three nodes per host, the third fails to launch: the roll-back stops the first node, raises AttributeError on None while storing its metrics, and the second node "
+             "keeps running (the mechanic never learns about it, the later stop stops nothing)")
+    ext_funcs = [f_ for m_ in (mech, lau) for f_ in ast.walk(m_.tree) if isinstance(f_, source.FUNC_TYPES)]
+    launcher_funcs = {id(f_): c for c in launchers for f_ in lau.methods(c).values()}
+    for c in launchers:
+        sf_orig = lau.methods(c)[stop_name]
+        sps = params_of(sf_orig)
+        if len(sps) < 3:
+            raise AnchorMissing(f"{c.name}.{stop_name}: signature (self, nodes, metrics_store)")
+        store_p = sps[2]
+        absent = []
+        for f_ in ext_funcs:
+            owner = launcher_funcs.get(id(f_))
+            if owner is not None and owner is not c:
+                continue
+            for x in source.calls_in(f_, attr=stop_name):
+                if source.enclosing_func(x) is not f_ or (owner is c) != _self_call(x) or source.arg_of(x, 0, sps[1]) is None:
+                    continue
+                a1 = source.arg_of(x, 1, store_p)
+                if a1 is None:
+                    continue
+                vals = [a1]
+                if isinstance(a1, ast.Name):
+                    vals = [n.value for n in walk_body(f_) if isinstance(n, ast.Assign) and any(isinstance(t, ast.Name) and t.id == a1.id for t in n.targets)]
+                if any(isinstance(v, ast.Constant) and v.value is None for v in vals):
+                    absent.append(x)
+        sfx = _Inliner(model.table, model.table.get(c.name, _L)).expand(sf_orig)
+        inst = f"{c.name}.{stop_name} completes without a metrics store"
+        if not absent:
+            chk.ob("O12.9", inst, True, sf_orig, f"no caller in {_L} / {_M} passes None for `{store_p}`")
+            continue
+        bad = _absent_uses(repo, sfx, store_p)
+        chk.ob("O12.9", inst, not bad, bad[0][0] if bad else sf_orig,
+               (f"{len(absent)} caller(s) pass None (line {', '.join(str(x.lineno) for x in absent)}); every use of `{store_p}` is behind a test that excludes None" if not bad else
+                f"`{short(source.enclosing_stmt(bad[0][0]), 70)}` runs with {store_p}=None (passed at line {absent[0].lineno}) and None is dereferenced in "
+                f"{' -> '.join(bad[0][1])}: the exception leaves the loop over the nodes, the remaining nodes are not stopped"),
+               key=f"{_L}:{c.name}.{stop_name}:no-store")
+
 
 from sa.selftest import V  # noqa: E402
 
@@ -3495,4 +3714,42 @@ VARIANTS = [
      V("", "keep", _M, "            self.logger.exception(\"Cannot process message [%s]\", msg)\n            # avoid \"can't pickle traceback objects\"\n            _, ex_value, _ = sys.exc_info()\n"
        "            self.send(getattr(msg, \"reply_to\", sender), actor.BenchmarkFailure(ex_value, traceback.format_exc()))\n",
        "            self.logger.exception(\"Cannot process message [%s]\", msg)\n            report_failure()\n")],
+]
+
+# round 6 (C12-m16, C12-m18): shared texts
+_SE_OLD = ("        self.node_configs = []\n        for p in self.provisioners:\n            self.node_configs.append(p.prepare(binaries))\n"
+           "        self.nodes = self.launcher.start(self.node_configs)\n")
+_PL_STORE_OLD = ("            # store system metrics in any case (telemetry devices may derive system metrics while the node is running)\n            if metrics_store:\n"
+                 "                node.telemetry.store_system_metrics(node, metrics_store)")
+_PL_STORE_COMMENT = "            # store system metrics in any case (telemetry devices may derive system metrics while the node is running)\n"
+
+VARIANTS += [
+    # C12-m16: what has been provisioned is recorded where stop_engine cleans up, before anything else can fail (O12.8)
+    V("m16: start_engine records the node configurations only after the launch has succeeded", "break", _M, _SE_OLD,
+      "        node_configs = [p.prepare(binaries) for p in self.provisioners]\n        self.nodes = self.launcher.start(node_configs)\n        self.node_configs = node_configs\n", "O12.8"),
+    V("m16: the node configurations are assigned as one comprehension (a later prepare() fails: the earlier installation is unknown to the stop)", "break", _M, _SE_OLD,
+      "        self.node_configs = [p.prepare(binaries) for p in self.provisioners]\n        self.nodes = self.launcher.start(self.node_configs)\n", "O12.8"),
+    V("m16: start_engine forgets the node configurations when the launch fails", "break", _M, _SE_OLD,
+      "        self.node_configs = []\n        for p in self.provisioners:\n            self.node_configs.append(p.prepare(binaries))\n"
+      "        try:\n            self.nodes = self.launcher.start(self.node_configs)\n        except BaseException:\n            self.node_configs = []\n            raise\n", "O12.8"),
+    V("m16: the configurations are collected through a local alias of the attribute", "keep", _M, _SE_OLD,
+      "        configs = []\n        self.node_configs = configs\n        for node_provisioner in self.provisioners:\n            config = node_provisioner.prepare(binaries)\n"
+      "            configs.append(config)\n        self.nodes = self.launcher.start(configs)\n"),
+    V("m16: the attribute is extended one configuration at a time", "keep", _M, _SE_OLD,
+      "        self.node_configs = []\n        for p in self.provisioners:\n            self.node_configs += [p.prepare(binaries)]\n"
+      "        self.nodes = self.launcher.start(list(self.node_configs))\n"),
+    # C12-m18: stop() without a store (roll-back of a failed start) must reach every node (O12.9)
+    V("m18: ProcessLauncher.stop stores system metrics unconditionally (None is dereferenced in the roll-back)", "break", _L, _PL_STORE_OLD,
+      _PL_STORE_COMMENT + "            node.telemetry.store_system_metrics(node, metrics_store)", "O12.9"),
+    V("m18: DockerLauncher.stop adds the node meta-data unconditionally", "break", _L,
+      "            if metrics_store:\n                telemetry.add_metadata_for_node(metrics_store, node.node_name, node.host_name)\n",
+      "            telemetry.add_metadata_for_node(metrics_store, node.node_name, node.host_name)\n", "O12.9"),
+    V("m18: ProcessLauncher.stop flushes the store after every node without asking whether there is one", "break", _L, _PL_STORE_OLD,
+      _PL_STORE_OLD + "\n            metrics_store.flush(refresh=False)", "O12.9"),
+    V("m18: presence of the store tested as a guard clause at the end of the loop body", "keep", _L, _PL_STORE_OLD,
+      _PL_STORE_COMMENT + "            if metrics_store is None:\n                continue\n            node.telemetry.store_system_metrics(node, metrics_store)"),
+    [V("m18: the presence test moves into Telemetry.store_system_metrics", "keep", _L, _PL_STORE_OLD,
+       _PL_STORE_COMMENT + "            node.telemetry.store_system_metrics(node, metrics_store)"),
+     V("", "keep", "esrally/telemetry.py", "    def store_system_metrics(self, node, metrics_store):\n        for device in self.devices:\n",
+       "    def store_system_metrics(self, node, metrics_store):\n        if metrics_store is None:\n            return\n        for device in self.devices:\n")],
 ]
